@@ -119,6 +119,14 @@ class AbsHeap:
             return False      # a raw object is invisible to the collector: what it points to must be kept alive by other
                               # means (here: root-registered objects only), and raw-only cycles carry no mark bits
         k = self.kind[o]
+        if k not in ("Node", "ANode", "Ref") and self.running:
+            # a container operation may allocate (an inline Tuple element is built through a temporary Tuple): a collection
+            # point, with both operands held by the call itself
+            self.stk[-1], self.stk[-2] = o, p
+            self.collection_point()
+            del self.stk[-1], self.stk[-2]
+            if not (self.usable(o) and self.usable(p)) or o not in self.edges:
+                return False                  # (went with its owner at that collection point)
         e = self.edges[o]
         if k in ("Node", "ANode"):
             slot = 0 if 0 not in e else (1 if 1 not in e else (rng.randrange(2) if rng else 0))
